@@ -27,6 +27,10 @@ import (
 //	'p' prompt reader: receives for ever, never leaves
 //	's' slow reader: receives k values, stops reading, then cancels its context
 //	'x' stalled: never reads; cancels its context at some later moment
+//	'n' never reads and never cancels. Inside the property only while no
+//	    Broadcast has to wait for it, i.e. with at most buffer-many values
+//	    outstanding for it: Broadcast, Subscribe and Close must still return
+//	    (nothing is claimed about the reader itself)
 //	'q' prompt reader that cancels its context at some later moment (own
 //	    thread, like 'x'; it keeps reading)
 type sub struct {
@@ -436,6 +440,7 @@ const (
 	classLeaveC = "broadcaster/departing-subscriber-and-close"
 	classStrict = "broadcaster/close-drops-accepted-values"
 	classDuring = "broadcaster/departure-during-delivery"
+	classStall  = "broadcaster/close-with-stalled-subscriber"
 )
 
 func classOf(s scen) string {
@@ -603,6 +608,26 @@ func scaledScenarios() []hx.Scenario {
 			}
 		}
 	}
+	// Close with a subscriber that neither reads nor cancels, at most
+	// buffer-many (2) values broadcast to it, Close released after 0..nv calls
+	// were issued: Broadcast, Subscribe and Close must return
+	for _, shape := range [][]int{{1}, {2}, {1, 1}} {
+		nv := 0
+		for _, x := range shape {
+			nv += x
+		}
+		n := sub{kind: 'n'}
+		for si, ss := range [][]sub{{n}, {n, {kind: 'p'}}, {{kind: 'p'}, n}, {n, {kind: 'p', late: true}}, {n, n}, {n, {kind: 'x'}}} {
+			for c := 0; c <= nv; c++ {
+				quick := si <= 1 || (si == 2 && nv == 2)
+				before := len(out)
+				add(scen{bcs: values(shape), subs: ss, closeAt: c, class: classStall}, true, 2, 4, !quick)
+				if len(out) > before {
+					prio[len(prio)-1] = 2
+				}
+			}
+		}
+	}
 	// a subscriber leaves while a Broadcast is in progress: FOUR subscribers
 	// [A prompt, B stalled / slow with a full buffer, C prompt, D prompt]; the
 	// 4th value parks the Broadcast on B; A, earlier in the list, cancels (its
@@ -696,6 +721,20 @@ func trueSizeScenarios(capacity int) []hx.Scenario {
 					})
 				}
 			}
+		}
+	}
+	// a subscriber that neither reads nor cancels with exactly the real buffer
+	// (10) outstanding: Broadcast and Close return
+	for _, ss := range [][]sub{{{kind: 'n'}}, {{kind: 'n'}, {kind: 'p'}}} {
+		for _, c := range []int{0, capacity / 2, capacity} {
+			s := scen{bcs: values([]int{capacity}), subs: ss, closeAt: c, class: classStall}
+			sc := s
+			out = append(out, hx.Scenario{
+				Name: fmt.Sprintf("cap%d %s", capacity, s.name()), Class: classOf(s),
+				ThoroughOnly: len(ss) > 1 && c != capacity,
+				Opts:         mc.Options{Delay: true, MinBound: 1, Bound: 3, MaxSteps: 20000},
+				Mk:           func() *mc.Exec { return mkExec(sc) },
+			})
 		}
 	}
 	return out
